@@ -11,7 +11,10 @@ Own oracles, straight from the property text, on the implementation only:
 and the iterative use: every sub-dictionary of a sufficient dictionary (exhaustive up to 6 leaf keys),
 add what explain lists until validate passes.
 """
+import collections
+import collections.abc
 import itertools
+import types
 
 import core
 import coreprop as cp
@@ -580,6 +583,269 @@ def replay_namespace(ctx, payload):
     return bool(fails), dict(oracle_failures=fails, failures_of_the_options_themselves=sorted(theirs & set(mine)), observed=q, stands_for=repr(expr))
 
 
+# ----------------------------------------------------------------------------- options given as a Mapping of another KIND
+#
+# explain / keys / validate take "options": the documentation's Dict, but every lookup of the library goes through the Mapping
+# protocol (confectioner.get_dotted_key: options[key], isinstance(options, Mapping)), so a caller may hand over the layered
+# ChainMap of a command line over a file, a read-only MappingProxyType, a UserDict, a Mapping of his own, or a dict subclass.
+# Measured on the unchanged library: graphs made of Option / Switch / Bind / CaseWhen / Coalesce / Iter / collections /
+# Template / function applications answer under such a mapping exactly as under the dict of the same content;
+# graphs holding WithOptions, Map (WithOptions inside), datasets or cached(...) do not (confectioner.mix drops or rejects a
+# non-dict mapping, the cache fingerprint cannot serialise a non-dict section), so the stream stays in the first group.  The C11 relations are then demanded of the three answers obtained
+# under the mapping; "absent from o" is decided on the content.
+
+class _DictSubclass(dict):
+    pass
+
+
+class _UserMapping(collections.abc.Mapping):
+    """a minimal read-only Mapping, as a configuration library might hand out"""
+
+    def __init__(self, data):
+        self._data = dict(data)
+
+    def __getitem__(self, key):
+        return self._data[key]
+
+    def __iter__(self):
+        return iter(self._data)
+
+    def __len__(self):
+        return len(self._data)
+
+
+def _chain_split(d):
+    """a ChainMap whose layers each hold a part of the entries (overrides over a file) - and a shadowed entry below"""
+    items = list(d.items())
+    top, low = dict(items[::2]), dict(items[1::2])
+    for k, _v in items[:1]:
+        low[k] = "shadowed"
+    return collections.ChainMap(top, low)
+
+
+def mapping_kinds():
+    return [("dict subclass", _DictSubclass), ("collections.OrderedDict", collections.OrderedDict),
+            ("collections.defaultdict without factory", lambda d: collections.defaultdict(None, d)),
+            ("collections.ChainMap({}, d)", lambda d: collections.ChainMap({}, d)), ("collections.ChainMap of two layers", _chain_split),
+            ("types.MappingProxyType", lambda d: types.MappingProxyType(dict(d))), ("collections.UserDict", collections.UserDict),
+            ("a user Mapping", _UserMapping)]
+
+
+def as_kind(po, f, deep):
+    """the python dictionary po as a mapping of another kind (deep: its sections too)"""
+    if isinstance(po, dict):
+        return f({k: (as_kind(v, f, deep) if deep else v) for k, v in po.items()})
+    if isinstance(po, list) and deep:
+        return [as_kind(v, f, deep) for v in po]
+    return po
+
+
+def kind_quad(scn, i, o, label, deep):
+    """explain / keys / validate, each on a freshly built graph, under the mapping"""
+    f = dict(mapping_kinds())[label]
+    q = {}
+    for m in ("explain", "keys", "validate"):
+        _lines, objs, w, _b = core.run_impl(base.mini(scn, i, []), want_objects=True)
+        q[m] = base.ask_obj(w, objs[0], m, as_kind(core.py_json(o), f, deep))
+    q["evaluate"] = "ok:?|"
+    return q
+
+
+def kind_failures(scn, i, o, label, deep, plain=None):
+    """C11 failures under the mapping that the same content as a plain dict does not show"""
+    if plain is None:
+        plain = {k for k, _d, _c in oracle_c11(scn, i, o, base.quad_cold(scn, i, o), None)}
+    q = kind_quad(scn, i, o, label, deep)
+    return [(k, d) for k, d, _c in oracle_c11(scn, i, o, q, None) if k not in plain and k != "bodies"], q
+
+
+def directed_mapping_scenario(rng):
+    """the shapes whose explanation depends on what is PRESENT: an option with an evaluatable default whose key is supplied, a supplied
+    templated value, a switch whose branch is known only from the options, all under one Iter / list / coalesce"""
+    ks = rng.sample([K(10), K(11), K(12), K(13), K(14), K(20, 21), K(20, 22), K(23, 24, 25)], 7)
+    v1, v2 = rng.sample([1, 2, lit("a"), lit("b")], 2)
+    region = opt(ks[0], rng.choice([opt(ks[1]), ("template", (("lit", "d"), ("ref", ks[1])), []), opt(ks[1], opt(ks[2]))]))
+    path = opt(ks[3]) if rng.random() < 0.7 else opt(ks[3], val(0))
+    source = ("switch", opt(ks[4]), [(("j", v1), opt(ks[5])), (("j", v2), opt(ks[6]))], None if rng.random() < 0.6 else val(0))
+    parts = [region, path, source]
+    rng.shuffle(parts)
+    top = rng.choice([("iter", parts), ("list", parts), ("tuple", parts), ("coalesce", parts[:2]), ("dict", [(("j", n), x) for n, x in enumerate(parts)])])
+    full = {}
+    for k in ks:
+        base.set_key(full, k, rng.choice([0, 1, 5, lit("a"), True]))
+    base.set_key(full, ks[4], v1)
+    base.set_key(full, ks[3], S(("ref", ks[2]), ("lit", "/"), ("lit", "x")) if rng.random() < 0.8 else 1)
+    pool = [full]
+    for _ in range(3):
+        o = base.deep_copy(full)
+        for k in rng.sample(ks, rng.randint(1, 3)):
+            base.del_key(o, k)
+        pool.append(o)
+    o = base.deep_copy(full)
+    base.set_key(o, ks[4], v2)
+    pool.append(o)
+    return dict(ftable={}, env={}, exprs=[top, region], ops=[]), pool
+
+
+def mapping_stream(ctx, n):
+    """-> dict(violations, checks, ops, mismatches, kinds): generated graphs of the supported group x dictionaries x mapping kinds (top level only /
+    sections too): the C11 oracles on the answers under the mapping, the iterative use with every intermediate dictionary handed over as
+    that mapping, and the answers of one live graph under the mapping against the model's answers for the content"""
+    rng = ctx.rng
+    kinds = mapping_kinds()
+    viol, checks, items, used, it_stats = [], 0, [], {}, {}
+    for j in range(n):
+        if j % 3 == 0:
+            scn, pool = directed_mapping_scenario(rng)
+        else:
+            g = gen.Gen(rng, with_presets=False, with_map=False, with_effects=False, with_failing=(j % 4 == 1))
+            exprs = []
+            while len(exprs) < 2:
+                e = g.expr(3, root=True)
+                # (cached(...) fingerprints the option values it depends on: a section that is not a dict cannot be serialised - TypeError)
+                if not any(x[0] == "cached" for x in base.nodes(dict(ftable=g.ftable, env={}, exprs=[e]), e)):
+                    exprs.append(e)
+            scn = dict(ftable=dict(g.ftable), env={}, exprs=exprs, ops=[])
+            pool = g.dict_pool()
+        for i in range(len(scn["exprs"])):
+            for oi, o in enumerate(pool[:4]):
+                picks = [kinds[(j + i + oi + t * 3) % len(kinds)] for t in range(2)]
+                plain = {k for k, _d, _c in oracle_c11(scn, i, o, base.quad_cold(scn, i, o), None)}
+                for label, f in picks:
+                    deep = rng.random() < 0.5
+                    checks += 1
+                    used[label] = used.get(label, 0) + 1
+                    fails, q = kind_failures(scn, i, o, label, deep, plain)
+                    for kind, detail in fails:
+                        viol.append(mapping_violation(scn, i, o, label, deep, kind, detail, q))
+                if oi == 0:
+                    label, f = picks[0]
+                    ops = [(m, 0, False, False, o2) for o2 in pool[:3] for m in ("explain", "keys", "validate")]
+                    _l, objs, w, _b = core.run_impl(base.mini(scn, i, []), want_objects=True)
+                    il = [base.ask_obj(w, objs[0], m, as_kind(core.py_json(o2), f, True)) for m, _, _, _, o2 in ops]
+                    items.append((il, base.mini(scn, i, ops), cp.dump_scn(dict(scn, ops=[], mapping_kind=label, expr_index=i))))
+            # the iterative use: every intermediate dictionary is handed over as the mapping
+            full = pool[0]
+            if j % 3 == 0 and i == 0 and ok(one(scn, i, full, "validate")):
+                label, f = kinds[(j // 3) % len(kinds)]
+
+                def one_kind(scn_, i_, d, m, _f=f):
+                    _l2, objs2, w2, _b2 = core.run_impl(base.mini(scn_, i_, []), want_objects=True)
+                    return base.ask_obj(w2, objs2[0], m, as_kind(core.py_json(d), _f, True))
+                ls = leaves(full)
+                starts = [()] + [(p_,) for p_ in ls] + [tuple(rng.sample(ls, len(ls) // 2))]
+                for sub in starts:
+                    start = sub_dict(full, sub)
+                    checks += 1
+                    outcome, rounds, detail = iterate(scn, i, full, start, one=one_kind)
+                    plain_outcome = iterate(scn, i, full, start)[0]
+                    it_stats[outcome] = it_stats.get(outcome, 0) + 1
+                    if outcome == "violation" and plain_outcome != "violation":
+                        o = eval(detail["dictionary"], {"S": S})
+                        viol.append(mapping_violation(scn, i, o, label, True, detail["kind"], dict(detail, sufficient=repr(full), start=repr(start), rounds=rounds),
+                                                      kind_quad(scn, i, o, label, True), iterate_from=(repr(full), repr(start))))
+    nops, mism = base.live_correspondence(ctx, "Mappings_C11", items, "one live graph asked under a non-dict Mapping vs Model/Eval.v under the content")
+    return dict(violations=viol, checks=checks, ops=nops, mismatches=mism, scenarios=n, kinds=used, iterative=it_stats)
+
+
+def mapping_violation(scn, i, o, label, deep, kind, detail, q, iterate_from=None):
+    return dict(desc=f"options given as [{label}]{' (sections too)' if deep else ''}: " + DESC[kind], family="mapping", oracle=kind, options=repr(o),
+                detail=detail, finding=None, mapping_kind=label, deep=deep, expr_index=i, expr=repr(scn["exprs"][i])[:600],
+                observed={m: res_of(q[m]) for m in ("explain", "keys", "validate")}, iterate_from=iterate_from,
+                scenario_repr=cp.dump_scn(dict(scn, ops=[])))
+
+
+def replay_mapping(ctx, payload):
+    scn = cp.load_scn(payload["scenario_repr"])
+    i, label, deep = payload["expr_index"], payload["mapping_kind"], payload["deep"]
+    o = eval(payload["options"], {"S": S})
+    fails, q = kind_failures(scn, i, o, label, deep)
+    if payload.get("iterate_from"):
+        full, start = (eval(x, {"S": S}) for x in payload["iterate_from"])
+        f = dict(mapping_kinds())[label]
+
+        def one_kind(scn_, i_, d, m):
+            _l2, objs2, w2, _b2 = core.run_impl(base.mini(scn_, i_, []), want_objects=True)
+            return base.ask_obj(w2, objs2[0], m, as_kind(core.py_json(d), f, True))
+        outcome, rounds, detail = iterate(scn, i, full, start, one=one_kind)
+        if outcome == "violation" and iterate(scn, i, full, start)[0] != "violation":
+            fails.append(("iterate", detail))
+    return bool(fails), dict(oracle_failures=fails, observed=q, under_a_plain_dict=base.quad_cold(scn, i, o))
+
+
+# ----------------------------------------------------------------------------- Maps over many option sets
+#
+# A Map whose iterables yield hundreds of option sets (one long list, a grid of two or three lists) and whose body needs an option
+# only for option sets far from the first ones: explain / keys / validate must take every option set into account.  Ordinary
+# scenarios of the core language: measured by the C11 oracles (cold) and against the model.
+
+BIG_ID, BIG_ID2, BIG_ID3, BIG_LATE, BIG_LATE2, BIG_LST = 10, 11, 12, 13, 14, 30
+
+
+def big_map_scenario(rng, quick):
+    shape = rng.choice(["list", "list", "grid", "grid3"])
+    late, other = opt(K(BIG_LATE)), opt(K(BIG_LATE2), val(0))
+
+    def chooser(key, v, then, otherwise):
+        r = rng.random()
+        if r < 0.4:
+            return ("switch", opt(key), [(("j", v), then)], otherwise)
+        if r < 0.7:
+            return ("bind", opt(key), [(("j", v), then)], otherwise)
+        return ("switch", opt(key), [(("j", v), then), (("j", lit("b")), other)], otherwise)
+    if shape == "list":
+        n = rng.choice([129, 130, 150, 200, 257] if quick else [129, 150, 257, 400, 700, 1025])
+        pos = rng.choice([n - 1, rng.randrange(128, n), rng.randrange(128, n)])
+        items = [0] * n if rng.random() < 0.5 else list(range(100, 100 + n))
+        items[pos] = 7
+        body = chooser(K(BIG_ID), 7, late, val(0))
+        src = rng.choice(["option", "option-default", "constant"])
+        it = opt(K(BIG_LST)) if src == "option" else opt(K(BIG_LST), val(items)) if src == "option-default" else val(items)
+        its = [(K(BIG_ID), it)]
+        supplied = {BIG_LST: items} if src == "option" else {}
+        short = {BIG_LST: items[:pos]} if src == "option" else None
+    else:
+        dims = [12, 12] if shape == "grid" else rng.choice([[6, 6, 5], [5, 6, 6]])
+        keys = [K(BIG_ID), K(BIG_ID2), K(BIG_ID3)][:len(dims)]
+        lists = [list(range(d)) for d in dims]
+        inner = late
+        for key, d in reversed(list(zip(keys[1:], dims[1:]))):
+            inner = chooser(key, d - 1 if rng.random() < 0.7 else d - 2, inner, val(0))
+        body = chooser(keys[0], dims[0] - 1, inner, val(1))               # needs the late option in the last row of the grid only
+        its, supplied = [], {}
+        for t, (key, lst) in enumerate(zip(keys, lists)):
+            if t == 0 and rng.random() < 0.6:
+                its.append((key, opt(K(BIG_LST))))
+                supplied[BIG_LST] = lst
+            else:
+                its.append((key, val(lst)))
+        short = {BIG_LST: lists[0][:-1]} if BIG_LST in supplied else None
+    m = ("map", body, its)
+    exprs = [m if rng.random() < 0.5 else ("tolist", m)]
+    with_late = dict(supplied, **{})
+    with_late[BIG_LATE] = rng.choice([1, lit("a"), None])
+    pool = [dict(supplied), with_late]
+    if short is not None:
+        pool.append(short)
+    if supplied:
+        pool.append({BIG_LATE: 1})
+    return dict(ftable={}, env={}, exprs=exprs, ops=[]), pool
+
+
+def big_map_stream(ctx, n):
+    """-> (raw oracle failures for the shared attribution, checks, histories for the correspondence)"""
+    raw, checks, hist, sizes = [], 0, [], {}
+    for _ in range(n):
+        scn, pool = big_map_scenario(ctx.rng, ctx.quick)
+        for o in pool:
+            q = base.quad_cold(scn, 0, o)
+            checks += 1
+            for kind, detail, cands in oracle_c11(scn, 0, o, q, None):
+                raw.append((scn, 0, o, None, kind, dict(detail, family="a Map over more than 128 option sets"), cands))
+        hist.append(dict(scn, ops=[(m, 0, False, False, o) for o in pool for m in ("explain", "keys", "validate")]))
+    return raw, checks, hist
+
+
 # ----------------------------------------------------------------------------- witnesses (C11 shapes)
 
 A, B, P, SEC, X = 10, 11, 13, 20, 21
@@ -611,12 +877,15 @@ def run(ctx):
     it_raw, it_stats = run_iterative(ctx, cases, 60 if ctx.quick else 600)
     late_raw, late_checks = late_registration(ctx, 40 if ctx.quick else 400)
     nsp = namespace_stream(ctx, 50 if ctx.quick else 500)
+    mp = mapping_stream(ctx, 45 if ctx.quick else 450)
+    big_raw, big_checks, big_hist = big_map_stream(ctx, 10 if ctx.quick else 100)
+    _bi, _bm, big_mism, big_stats = cp.correspondence(ctx, big_hist, "Cases_C11_bigmaps", shard=2)
     cl = base.class_stream(ctx, PID, 60 if ctx.quick else 600, oracle_c11, DESC)
     hs = base.history_stream(ctx, PID, 60 if ctx.quick else 600, oracle_c11, DESC, ("explain", "keys", "validate"))
     violations, checks, distinct, dist, tagged = base.run_oracles(ctx, PID, cases, oracle_c11, DESC, 3 if ctx.quick else 4,
-                                                                  extra=it_raw + late_raw + nsp["raw"] + cl["raw"])
-    violations += nsp["violations"][:25] + cl["violations"][:25] + hs["violations"][:25]
-    mism = mism + nsp["mismatches"] + cl["mismatches"] + hs["mismatches"]
+                                                                  extra=it_raw + late_raw + nsp["raw"] + cl["raw"] + big_raw)
+    violations += nsp["violations"][:25] + cl["violations"][:25] + hs["violations"][:25] + mp["violations"][:25]
+    mism = mism + nsp["mismatches"] + cl["mismatches"] + hs["mismatches"] + mp["mismatches"] + big_mism
     known = [dict(id=fid, still_fails=base.witness_fails(WIT[fid], oracle_c11), what=WIT[fid]["what"]) for fid in KNOWN]
     sample = []
     for scn, pool in cases[-3:]:
@@ -624,7 +893,8 @@ def run(ctx):
         sample.append(dict(expr=repr(scn["exprs"][0])[:300], options=repr(pool[0])[:160], observed={m: q[m][:80] for m in METHODS}))
     return {
         "evaluations": stats["ops"] + 4 * checks + 2 * it_stats["sub_dictionaries"] + 6 * late_checks + 4 * nsp["checks"] + nsp["ops"]
-                       + 2 * nsp["iterative"]["sub_dictionaries"] + 4 * cl["checks"] + cl["ops"] + 3 * hs["checks"] + hs["ops"],
+                       + 2 * nsp["iterative"]["sub_dictionaries"] + 4 * cl["checks"] + cl["ops"] + 3 * hs["checks"] + hs["ops"]
+                       + 3 * mp["checks"] + mp["ops"] + 4 * big_checks + big_stats["ops"],
         "distinct_nontrivial": len(distinct),
         "rule": "C01 profile (see C10); for every (expression, dictionary of an adversarially perturbed pool, cold / warm / warm-other graph): "
                 "explain vs keys vs validate. Iterative use: for sufficient dictionaries with 1-6 leaf keys EVERY sub-dictionary (exhaustive) is "
@@ -634,16 +904,22 @@ def run(ctx):
                 "namespaces and members reached by attribute access, under the sufficient dictionary and its neighbours, the iterative use from every "
                 "sub-dictionary, and the namespace against the model on the collection of its effective options. Dataset classes (see C10). Histories of "
                 "public mutators on a dataset / its parent / a sibling / a dependency with every object asked (explain() without argument, {} and others) "
-                "after every step; after register/overload-only histories the answers are compared with the model on the graph declared up front. Non-trivial = the four methods do not all succeed nor all fail; "
+                "after every step; after register/overload-only histories the answers are compared with the model on the graph declared up front. "
+                "Options handed over as a Mapping of another kind (dict subclass, OrderedDict, defaultdict, ChainMap of one / two layers, MappingProxyType, UserDict, a user "
+                "Mapping; top level only or sections too) on graphs without WithOptions / Map / datasets: the C11 oracles on the answers under the mapping, the "
+                "iterative use through the mapping, one live graph under the mapping against the model under the content. Maps over 129-257 option sets (one long "
+                "list, 12x12 and 6x6x5 grids) whose body needs an option only for late option sets, against the oracles and the model. Non-trivial = the four methods do not all succeed nor all fail; "
                 "distinct by hash of (expression, dictionary, first dictionary).",
         "samples": sample,
-        "traces_validated_against_impl": stats["ops"] + nsp["ops"] + cl["ops"] + hs["ops"],
+        "traces_validated_against_impl": stats["ops"] + nsp["ops"] + cl["ops"] + hs["ops"] + mp["ops"] + big_stats["ops"],
         "correspondence_mismatches": mism[:5],
         "violations": violations,
         "known": known,
         "distribution": dict(stats, quadruples=checks, outcome_patterns_validate_keys_explain_evaluate=dist, oracle_failures_tagged=tagged,
                              scenarios=len(cases), iterative=it_stats, late_registration_histories=late_checks, excluded=dict(EXCLUDED),
                              namespaces={k: v for k, v in nsp.items() if k not in ("raw", "violations", "mismatches")},
+                             mapping_kinds={k: v for k, v in mp.items() if k not in ("violations", "mismatches")},
+                             big_maps=dict(scenarios=len(big_hist), quadruples=big_checks, ops_vs_model=big_stats["ops"]),
                              dataset_classes=dict(scenarios=cl["scenarios"], quadruples=cl["checks"], ops_vs_model=cl["ops"], patterns=cl["patterns"]),
                              mutator_histories=dict(histories=hs["histories"], moments_asked=hs["checks"], ops_vs_model=hs["ops"], mutators=hs["mutators"])),
         "exhaustive": False,
@@ -660,6 +936,8 @@ def run(ctx):
 def replay(ctx, payload):
     if payload.get("family") == "namespace":
         return replay_namespace(ctx, payload)
+    if payload.get("family") == "mapping":
+        return replay_mapping(ctx, payload)
     if payload.get("family") == "class":
         return base.replay_class(ctx, payload, oracle_c11)
     if payload.get("family") == "history":
